@@ -155,6 +155,25 @@ def it_assign(c):
     return {'outs': {'r': d}, 'widths': {'r': w_eff}, 'oracle': lambda ins: {'r': ins['a'] & ((1 << w_eff) - 1)}}
 
 
+def it_assign_const(c):
+    """<<= / |= of a Const (signed or not, explicit or inferred width) into a narrower / equal / wider destination: the constant's
+    two's-complement bits are zero-extended or truncated like any other wire's"""
+    k, wk, signed, wd, form = c['k'], c['wk'], c['signed'], c['wd'], c['form']
+    a = I(1, 'a')
+    raw = pyrtl.Const(k, bitwidth=wk, signed=signed) if wk else pyrtl.Const(k, signed=signed)
+    enc = k if k >= 0 else k + (1 << len(raw))
+    d = pyrtl.WireVector(wd, 'd')
+    if form == 'assign':
+        d <<= raw
+        exp = lambda ins: enc & ((1 << wd) - 1)
+    else:
+        with pyrtl.conditional_assignment:
+            with a:
+                d |= raw
+        exp = lambda ins: ite(ins['a'] == 1, enc & ((1 << wd) - 1), 0)
+    return {'outs': {'r': d, 'a_': a}, 'widths': {'r': wd}, 'oracle': lambda ins: {'r': exp(ins), 'a_': ins['a']}}
+
+
 ROMDATA = [0xAB, 0x12, 0xFF, 0x80]
 
 
@@ -319,7 +338,7 @@ def it_reduce(c):
 
 
 ITEMS = {'binop': it_binop, 'constop': it_constop, 'invert': it_invert, 'slice': it_slice, 'concat': it_concat,
-         'assign': it_assign, 'extend': it_extend, 'truncate': it_truncate, 'select': it_select, 'signed': it_signed,
+         'assign': it_assign, 'assign_const': it_assign_const, 'extend': it_extend, 'truncate': it_truncate, 'select': it_select, 'signed': it_signed,
          'signed_int': it_signed_int, 'shift_wire': it_shift_wire, 'shift_const': it_shift_const, 'barrel': it_barrel,
          'reduce': it_reduce, 'memread': it_memread}
 
@@ -414,6 +433,11 @@ def cases(tier, seed):
         out.append({'item': 'select', 'wa': wa, 'wb': wd})
     for wa in W:
         out.append({'item': 'assign', 'wa': wa, 'wd': 0})
+    for k, wk, signed in ((-3, None, True), (-3, 8, True), (-1, None, True), (-1, 1, True), (-4, 3, True), (5, None, True), (3, 3, True),
+                          (5, None, False), (7, 3, False), (0, None, True), (-128, None, True)):
+        for wd in (1, 2, 3, 8, 9, 65):
+            for form in ('assign', 'cond'):
+                out.append({'item': 'assign_const', 'k': k, 'wk': wk, 'signed': signed, 'wd': wd, 'form': form})
     for f in ('add', 'mult', 'lt', 'le', 'gt', 'ge'):
         for wa, wb in itertools.product(W, W):
             if f == 'mult' and (wa > mulmax - 1 or wb > mulmax - 1):
